@@ -219,6 +219,46 @@ func seqCase(r *vh.Rand, o *vh.Out) {
 			o.Count("seq_blocked_fetch")
 		case len(ref) > 0 && r.Chance(40):
 			doFetch(r.Chance(30))
+		case r.Chance(22):
+			// the other exported methods must leave the pending set alone (the oracle below and the
+			// model treat them as no-ops): EntryDeleted(dir, true) on a pending directory, on the parent
+			// of one, on an unreported one; Ignore; DirAdded of a directory that does not exist
+			switch r.Intn(6) {
+			case 0, 1, 2:
+				d := path.Dir(r.Pick(pool))
+				if ks := keys(ref); len(ks) > 0 && r.Chance(60) {
+					d = ks[r.Intn(len(ks))]
+					o.Count("seq_dirdeleted_pending")
+				}
+				if r.Chance(20) {
+					d = path.Dir(d)
+				}
+				if r.Chance(10) {
+					d += "/"
+				}
+				c.EntryDeleted(d, true)
+				ops = append(ops, "D"+vh.HexS(d))
+				impl = append(impl, "d")
+				o.Count("seq_dirdeleted")
+			case 3:
+				name := r.Pick(pool)
+				c.Ignore(name, false)
+				ops = append(ops, "I"+vh.HexS(name))
+				impl = append(impl, "i")
+				o.Count("seq_ignore")
+			case 4:
+				name := path.Dir(r.Pick(pool))
+				c.Ignore(name, true)
+				ops = append(ops, "J"+vh.HexS(name))
+				impl = append(impl, "i")
+				o.Count("seq_ignore")
+			default:
+				name := fmt.Sprintf("no-such-dir-%d", r.Intn(1000))
+				c.DirAdded(name)
+				ops = append(ops, "A"+vh.HexS(name))
+				impl = append(impl, "a")
+				o.Count("seq_diradded_missing")
+			}
 		default:
 			name := r.Pick(pool)
 			if r.Chance(15) {
@@ -282,10 +322,11 @@ type stressCfg struct {
 	reportsPerProd int
 	procs          int
 	fetchLimit     int // fetches per consumer (0 = loop for ever)
+	tight          int // 1 = no jitter, long bursts (tiny windows such as "drain, then Wait" vs "insert")
 }
 
 func (c stressCfg) line() string {
-	return fmt.Sprintf("c40stress\t%d\t%d\t%d\t%d\t%d\t%d\t%d", c.seed, c.idx, c.producers, c.consumers, c.reportsPerProd, c.procs, c.fetchLimit)
+	return fmt.Sprintf("c40stress\t%d\t%d\t%d\t%d\t%d\t%d\t%d\t%d", c.seed, c.idx, c.producers, c.consumers, c.reportsPerProd, c.procs, c.fetchLimit, c.tight)
 }
 
 func jitter(r *vh.Rand) {
@@ -305,6 +346,14 @@ func runStress(cfg stressCfg) (hist []hop, er string, fail string, detail string
 	c := watcher.NewChanges(root)
 	pk, havePeek := newPeek(c)
 	pool := namePool(r)
+	if cfg.tight == 1 {
+		pool = []string{"a/x.go", "b/y.go"}
+	}
+	jitter := func(jr *vh.Rand) {
+		if cfg.tight == 0 {
+			jitter(jr)
+		}
+	}
 	var clock int64
 	tick := func() int64 { return atomic.AddInt64(&clock, 1) }
 	var mu sync.Mutex
@@ -325,6 +374,17 @@ func runStress(cfg stressCfg) (hist []hop, er string, fail string, detail string
 			for i := 0; i < cfg.reportsPerProd; i++ {
 				name := pr.Pick(pool)
 				jitter(pr)
+				if cfg.tight == 0 && pr.Chance(20) {
+					// other methods, racing with the reports: they must not disturb the pending set
+					switch pr.Intn(4) {
+					case 0, 1:
+						c.EntryDeleted(path.Dir(pr.Pick(pool)), true)
+					case 2:
+						c.EntryDeleted(path.Dir(path.Dir(pr.Pick(pool))), true)
+					default:
+						c.Ignore(pr.Pick(pool), false)
+					}
+				}
 				inv := tick()
 				c.FileChanged(name)
 				add(hop{arg: name, dir: path.Dir(name), inv: inv, ret: tick()})
@@ -565,7 +625,11 @@ func stressCase(cfg stressCfg, o *vh.Out) {
 	o.Count(fmt.Sprintf("stress_procs_%d", cfg.procs))
 	o.Count("stress_ops_" + bucket(len(h)))
 	if fail != "" {
-		o.Oracle(fail, cfg.line(), detail+" | history: "+histString(h))
+		hs := histString(h)
+		if len(hs) > 4000 {
+			hs = hs[:2000] + " … " + hs[len(hs)-2000:]
+		}
+		o.Oracle(fail, cfg.line(), detail+" | history: "+hs)
 		o.Stats["stress_failed"]++
 		return
 	}
@@ -603,6 +667,10 @@ func genStress(r *vh.Rand, seed uint64, idx int, procs int) stressCfg {
 		cfg.producers, cfg.consumers, cfg.reportsPerProd = 2+r.Intn(2), 2+r.Intn(2), 1+r.Intn(2)
 	default:
 		cfg.producers, cfg.consumers, cfg.reportsPerProd = 2+r.Intn(4), 2+r.Intn(4), 2+r.Intn(6)
+	}
+	if procs > 1 && r.Chance(12) {
+		// the narrow window "consumer drains and goes to Wait" vs "producer decides whether to Broadcast"
+		return stressCfg{seed: seed, idx: idx, procs: procs, producers: 1, consumers: 1, reportsPerProd: 3000 + r.Intn(3000), tight: 1}
 	}
 	if r.Chance(50) {
 		cfg.fetchLimit = 1 + r.Intn(2) // one-shot consumers: a consumer left asleep cannot be covered up by another
@@ -793,6 +861,9 @@ func replay(f *vh.Flags, o *vh.Out) {
 		cfg.reportsPerProd, _ = strconv.Atoi(fs[5])
 		cfg.procs, _ = strconv.Atoi(fs[6])
 		cfg.fetchLimit, _ = strconv.Atoi(fs[7])
+		if len(fs) > 8 {
+			cfg.tight, _ = strconv.Atoi(fs[8])
+		}
 		for i := 0; i < 300 && o.Stats["oracle_fail"] == 0; i++ {
 			stressCase(cfg, o)
 		}
